@@ -89,6 +89,10 @@ fn project(schedule: &[Step], run: usize) -> Vec<Step> {
 fn project_events(events: &[Ev], run: usize) -> Vec<Ev> {
     let mut out = Vec::new();
     for e in events {
+        if matches!(e, Ev::Wake { .. } | Ev::Idle { .. }) {
+            // wake-up bookkeeping is not behaviour (see the history comparison)
+            continue;
+        }
         let mut e = e.clone();
         let r = match &mut e {
             Ev::Start { run }
@@ -119,6 +123,7 @@ fn project_events(events: &[Ev], run: usize) -> Vec<Ev> {
             | Ev::LiveCap { run } => run,
             Ev::StepCap => continue,
         };
+
         if *r == run {
             *r = 0;
             out.push(e);
@@ -197,13 +202,22 @@ pub fn evaluate(
             let k = case.runs.len();
             let reused = &result.drives[k - 1];
             let fresh = &result.drives[k];
-            if reused.events != fresh.events {
-                let pos = reused
-                    .events
+            // compared modulo wake-up bookkeeping: a spurious wake-up (or the lack of one
+            // that an earlier poll made unnecessary) is not behaviour; a *lost* one shows
+            // as a dead / stalled state, which is kept
+            let sem = |ev: &[Ev]| -> Vec<Ev> {
+                ev.iter()
+                    .filter(|e| !matches!(e, Ev::Wake { .. } | Ev::Idle { .. }))
+                    .cloned()
+                    .collect()
+            };
+            let (reused_ev, fresh_ev) = (sem(&reused.events), sem(&fresh.events));
+            if reused_ev != fresh_ev {
+                let pos = reused_ev
                     .iter()
-                    .zip(fresh.events.iter())
+                    .zip(fresh_ev.iter())
                     .position(|(a, b)| a != b)
-                    .unwrap_or(reused.events.len().min(fresh.events.len()));
+                    .unwrap_or(reused_ev.len().min(fresh_ev.len()));
                 return Some(Violation {
                     prop: Prop::C15,
                     class: "history-dependence",
@@ -211,8 +225,8 @@ pub fn evaluate(
                     msg: format!(
                         "run {} on the reused graph diverges from the same run on a fresh graph at event {pos}: reused {:?} / fresh {:?}",
                         k - 1,
-                        reused.events.get(pos),
-                        fresh.events.get(pos)
+                        reused_ev.get(pos),
+                        fresh_ev.get(pos)
                     ),
                 });
             }
@@ -309,7 +323,8 @@ pub fn execute_seed(prop: Prop, seed: u64) -> Executed {
 pub fn execute_generated(prop: Prop, seed: u64, case: CaseSpec, sched: Vec<SchedParams>) -> Executed {
     let res = run_case(&case, &mut |world| {
         let params: Vec<SchedParams> = match case.mode {
-            Mode::History => vec![sched[world].clone()],
+            // world k is the reference: the last run on a fresh graph
+            Mode::History => vec![sched[world.min(case.runs.len() - 1)].clone()],
             _ => sched.clone(),
         };
         random_sched(seed, world, &params, case.graph.fns.len())
@@ -374,7 +389,9 @@ pub fn execute_replay(prop: Prop, case: &CaseSpec, schedules: &[Vec<Step>], vt_e
 
 pub fn schedules_of(ex: &Executed) -> Vec<Vec<Step>> {
     let k = match ex.case.mode {
-        Mode::History => ex.case.runs.len(),
+        // the runs on the reused graph, then the reference on the fresh graph (whose
+        // schedule the last reused-graph run executes)
+        Mode::History => ex.case.runs.len() + 1,
         _ => 1,
     };
     ex.result.drives.iter().take(k).map(|d| d.schedule.clone()).collect()
